@@ -9,15 +9,23 @@ from concurrent.futures import ThreadPoolExecutor
 from lib.common import ToolError, log, write_ndjson
 from lib import swayexec
 
-MEMBER_MANIFEST = ('[project]\nauthors = ["vh"]\nentry = "main.sw"\nlicense = "Apache-2.0"\nname = "%s"\n\n'
-                   '[dependencies]\nstd = { path = "/repo/sway-lib-std" }\n')
+def std_path():
+    """The standard library the generated packages depend on.  Always /repo/sway-lib-std in a check run; the
+    environment variable VERIF_STD_PATH exists only for the binding demonstrations described in notes/C12.md and
+    notes/C28.md (a seeded mutant of a *copy* of std outside /repo)."""
+    return os.environ.get("VERIF_STD_PATH", "/repo/sway-lib-std")
+
+
+def manifest(name):
+    return ('[project]\nauthors = ["vh"]\nentry = "main.sw"\nlicense = "Apache-2.0"\nname = "%s"\n\n'
+            '[dependencies]\nstd = { path = "%s" }\n' % (name, std_path()))
 
 
 def workspace(ws_id, members, profile="debug", want=("slots",)):
     """members: list of (name, source). Returns a vh-exec input record for one workspace."""
     files = {}
     for name, src in members:
-        files["%s/Forc.toml" % name] = MEMBER_MANIFEST % name
+        files["%s/Forc.toml" % name] = manifest(name)
         files["%s/src/main.sw" % name] = src
     man = "[workspace]\nmembers = [%s]\n" % ", ".join('"%s"' % n for n, _ in members)
     return {"id": ws_id, "files": files, "manifest": man, "profile": profile, "want": list(want) + ["diag"]}
